@@ -28,6 +28,9 @@ type c03Case struct {
 	// MaxStr != 0: a block of part (D); it is run under c03BoundaryConfigs(MaxStr)
 	// instead of the general configuration list.
 	MaxStr int `json:"maxstr,omitempty"`
+	// Padded: a block of part (D) in which some integer (string length or name
+	// index) may be in non-shortest form; only distinguishes the signature.
+	Padded bool `json:"padded,omitempty"`
 }
 
 // c03Partitions calls f with every partition of b in the family: the two
@@ -217,14 +220,93 @@ func c03BoundaryStrings(n int) []c03Str {
 	return out
 }
 
+// c03IntWidths are the total octet counts of the integers of the padded
+// sub-part of (D); 0 stands for the shortest form, -1 for shortest+1 (the
+// smallest redundant form). readVarInt accepts at most 10 octets (prefix
+// octet, 8 continuation octets with the high bit set, final octet) and rejects
+// 11 as an overflow; 6/7 and 9/10 sit on both sides of what Decoder.Write's
+// bound on the bytes retained in saveBuf allows for (8 octets of integer per
+// string: with a 10-octet length on the other string, 6 is within 2*8 and 7 is
+// not).
+var c03IntWidths = []int{0, -1, 6, 7, 9, 10, 11}
+
+// c03EncIntW is c02EncInt producing exactly width octets (0 = shortest, -1 =
+// shortest+1). A wider-than-shortest form exists only for values that
+// saturate the prefix.
+func c03EncIntW(hi byte, n uint, v uint64, width int) []byte {
+	short := c02EncInt(hi, n, v, 0)
+	switch {
+	case width == 0 || width == len(short):
+		return short
+	case width == -1:
+		width = len(short) + 1
+	}
+	if width < len(short) {
+		panic(fmt.Sprintf("harness: %d does not fit %d octets", v, width))
+	}
+	b := c02EncInt(hi, n, v, width-len(short))
+	if len(b) != width {
+		panic(fmt.Sprintf("harness: padded integer %d has %d octets, wanted %d", v, len(b), width))
+	}
+	return b
+}
+
+// c03EncStrW is c02EncStr with the length integer written in exactly width
+// octets (see c03EncIntW); w is the number of octets the length took.
+func c03EncStrW(s string, huff bool, width int) (enc []byte, w int) {
+	data, hi := []byte(s), byte(0)
+	if huff {
+		data, hi = c02RefHuffEncode([]byte(s)), 0x80
+	}
+	pre := c03EncIntW(hi, 7, uint64(len(data)), width)
+	return append(pre, data...), len(pre)
+}
+
+// c03PaddedStrings returns the strings of the padded sub-part of (D) for a max
+// string length n >= 127 (below that no length <= n+1 has a non-shortest
+// form): not Huffman coded n-1 octets (shortest form), n octets with the
+// length in every width of c03IntWidths, n+1 octets (over the limit) in
+// shortest and 10-octet form, and Huffman coded 'X' x n (encoded = decoded = n)
+// in shortest and 10-octet form.
+func c03PaddedStrings(n int) []c03Str {
+	if n < 127 {
+		panic("harness: c03PaddedStrings needs n >= 127")
+	}
+	var out []c03Str
+	add := func(name, s string, huff bool, width int) {
+		b, w := c03EncStrW(s, huff, width)
+		out = append(out, c03Str{fmt.Sprintf("%s(len in %d octets)", name, w), b})
+	}
+	add(fmt.Sprintf("raw*%d", n-1), strings.Repeat("v", n-1), false, 0)
+	for _, w := range c03IntWidths {
+		add(fmt.Sprintf("raw*%d", n), strings.Repeat("v", n), false, w)
+	}
+	for _, w := range []int{0, 10} {
+		add(fmt.Sprintf("raw*%d", n+1), strings.Repeat("v", n+1), false, w)
+	}
+	for _, w := range []int{0, 10} {
+		add(fmt.Sprintf("huff'X'*%d", n), strings.Repeat("X", n), true, w)
+	}
+	return out
+}
+
 // c03BoundaryBlocks generates part (D) for one max string length n: every
 // literal representation kind (incremental indexing / without indexing / never
-// indexed) with a literal name and a literal value both taken from
-// c03BoundaryStrings(n) (every pair), and with the name taken from static
-// index 1 and every such value; each alone, followed by an indexed field, and
-// preceded by one.
-func c03BoundaryBlocks(n int, yield func(c03Case) bool) bool {
+// indexed) with a literal name and a literal value both taken (every pair)
+// from c03BoundaryStrings(n) - or, with padded set, from c03PaddedStrings(n) -
+// and with an indexed name and every such value; each alone, followed by an
+// indexed field, and preceded by one. Not padded: the name index is static
+// index 1 in shortest form. Padded: the name index is the smallest index that
+// saturates the prefix (63 for the 6-bit prefix: the second dynamic entry, valid
+// with two preloaded entries only; 15 for the 4-bit prefixes: static) written
+// in every width of c03IntWidths.
+func c03BoundaryBlocks(n int, padded bool, yield func(c03Case) bool) bool {
 	strs := c03BoundaryStrings(n)
+	tag := fmt.Sprintf("maxstr=%d: ", n)
+	if padded {
+		strs = c03PaddedStrings(n)
+		tag = fmt.Sprintf("maxstr=%d padded: ", n)
+	}
 	kinds := []struct {
 		name   string
 		hi     byte
@@ -232,15 +314,27 @@ func c03BoundaryBlocks(n int, yield func(c03Case) bool) bool {
 	}{{"lit+idx", 0x40, 6}, {"lit", 0x00, 4}, {"never", 0x10, 4}}
 	idx2 := []byte{0x82}
 	emit := func(desc string, rep []byte) bool {
-		desc = fmt.Sprintf("maxstr=%d: %s", n, desc)
-		return yield(c03Case{desc, c02Hex(rep), n}) &&
-			yield(c03Case{desc + ", idx2", c02Hex(c02Cat(rep, idx2)), n}) &&
-			yield(c03Case{"idx2, " + desc, c02Hex(c02Cat(idx2, rep)), n})
+		desc = tag + desc
+		return yield(c03Case{desc, c02Hex(rep), n, padded}) &&
+			yield(c03Case{desc + ", idx2", c02Hex(c02Cat(rep, idx2)), n, padded}) &&
+			yield(c03Case{"idx2, " + desc, c02Hex(c02Cat(idx2, rep)), n, padded})
 	}
 	for _, k := range kinds {
-		for _, v := range strs {
-			if !emit(fmt.Sprintf("%s n1=%s", k.name, v.Name), c02Cat(c02EncInt(k.hi, k.prefix, 1, 0), v.B)) {
-				return false
+		var idxs []c03Str
+		if !padded {
+			idxs = []c03Str{{"n1", c02EncInt(k.hi, k.prefix, 1, 0)}}
+		} else {
+			idx := uint64(1)<<k.prefix - 1
+			for _, w := range c03IntWidths {
+				b := c03EncIntW(k.hi, k.prefix, idx, w)
+				idxs = append(idxs, c03Str{fmt.Sprintf("n%d(in %d octets)", idx, len(b)), b})
+			}
+		}
+		for _, ix := range idxs {
+			for _, v := range strs {
+				if !emit(fmt.Sprintf("%s %s=%s", k.name, ix.Name, v.Name), c02Cat(ix.B, v.B)) {
+					return false
+				}
 			}
 		}
 		for _, nm := range strs {
@@ -361,10 +455,11 @@ func TestVerif_C03(t *testing.T) {
 		max3 := vx.Pick(c, 12, 20)
 		byteL := vx.Pick(c, 4, 5)
 		maxStrs := vx.Pick(c, []int{8, 16, 64}, []int{7, 8, 16, 64, 127})
-		c.Rule(fmt.Sprintf("blocks: (A) every sequence of 1..3 fragments of the %d-element fragment alphabet (thorough: the %d-element wide alphabet, plus every 4-sequence over the first 12 fragments), each also with its last fragment cut at every byte (truncated blocks); (C) the real Encoder's output for every 2-operation history over 17 operations, each also with every one of its first 24 bytes xor 01 / xor 80 / set to ff and every truncation to < 24 bytes; (B) every byte string of length 1..%d over {00,01,0f,3f,40,7f,80,82,be,ff}; (D) for every max string length n in %v: every literal representation (incremental indexing / without indexing / never indexed) with a literal name and a literal value both drawn (every pair) from the %d strings whose lengths straddle n - not Huffman coded of 1, n-1, n, n+1 octets; Huffman coded with encoded = decoded length n-1, n, n+1 (8-bit codes); Huffman coded with decoded length n-1, n, n+1 and a shorter encoding (5-bit codes); Huffman coded with encoded length n-1, n, n+1 and a shorter decoded string (24-bit codes) - and with the name from static index 1 and every such value; each alone, followed by an indexed field, and preceded by one; run under SetMaxStringLength(n) (table 4096 / 40, 0 / 2 preloaded entries, each emit mode) and without a max string length. "+
-			"partitions of each block: every 2-partition including an empty chunk, every 3-partition into non-empty chunks for blocks of <= %d bytes, and one byte per Write (so every split position of the long blocks of (D) is a 2-partition); (A)-(C) under each of %d decoder configurations (initial/allowed table size, 0-2 preloaded entries, max string length set/unset, emitting on / SetEmitEnabled(false) before the block / disabled by the emit callback at the first field of the block; the emit function is replaced with SetEmitFunc after the preload and again before the follow-up). Each partition is compared with the single-Write run of the same configuration: block success/failure, emitted fields, white-box dynamic table (entries, size, maxSize), and - when the block succeeded - the outcome and fields of a follow-up block, fed in one Write with emitting re-enabled, that references every dynamic index the Decoder then has (at most 8); saveBuf empty after Close. The fragment alphabet is that of C02 plus literals whose string content is itself a table-changing representation sequence. non-trivial = block whose single-Write run emitted a field or changed the table or was retained in saveBuf by some partition", len(c03Fragments(false)), len(c03Fragments(true)), byteL, maxStrs, len(c03BoundaryStrings(maxStrs[0])), max3, len(cfgs)))
+		const padN = 127 // the smallest max string length with a paddable length <= it
+		c.Rule(fmt.Sprintf("blocks: (A) every sequence of 1..3 fragments of the %d-element fragment alphabet (thorough: the %d-element wide alphabet, plus every 4-sequence over the first 12 fragments), each also with its last fragment cut at every byte (truncated blocks); (C) the real Encoder's output for every 2-operation history over 17 operations, each also with every one of its first 24 bytes xor 01 / xor 80 / set to ff and every truncation to < 24 bytes; (B) every byte string of length 1..%d over {00,01,0f,3f,40,7f,80,82,be,ff}; (D) for every max string length n in %v: every literal representation (incremental indexing / without indexing / never indexed) with a literal name and a literal value both drawn (every pair) from the %d strings whose lengths straddle n - not Huffman coded of 1, n-1, n, n+1 octets; Huffman coded with encoded = decoded length n-1, n, n+1 (8-bit codes); Huffman coded with decoded length n-1, n, n+1 and a shorter encoding (5-bit codes); Huffman coded with encoded length n-1, n, n+1 and a shorter decoded string (24-bit codes) - and with the name from static index 1 and every such value; each alone, followed by an indexed field, and preceded by one; run under SetMaxStringLength(n) (table 4096 / 40, 0 / 2 preloaded entries, each emit mode) and without a max string length; and, for n = %d (the smallest n for which a length <= n has a non-shortest form), the same literal shapes over the %d strings {not Huffman coded n-1 octets; n octets with the length integer in shortest, shortest+1, 6, 7, 9, 10 (longest accepted) and 11 (overflow) octets; n+1 octets in shortest and 10-octet form; Huffman coded encoded = decoded = n in shortest and 10-octet form} (every pair), and with the name index (63 / 15: saturating the 6- / 4-bit prefix) written in each of those widths and every such value. "+
+			"partitions of each block: every 2-partition including an empty chunk, every 3-partition into non-empty chunks for blocks of <= %d bytes, and one byte per Write (so every split position of the long blocks of (D) is a 2-partition); (A)-(C) under each of %d decoder configurations (initial/allowed table size, 0-2 preloaded entries, max string length set/unset, emitting on / SetEmitEnabled(false) before the block / disabled by the emit callback at the first field of the block; the emit function is replaced with SetEmitFunc after the preload and again before the follow-up). Each partition is compared with the single-Write run of the same configuration: block success/failure, emitted fields, white-box dynamic table (entries, size, maxSize), and - when the block succeeded - the outcome and fields of a follow-up block, fed in one Write with emitting re-enabled, that references every dynamic index the Decoder then has (at most 8); saveBuf empty after Close. The fragment alphabet is that of C02 plus literals whose string content is itself a table-changing representation sequence. non-trivial = block whose single-Write run emitted a field or changed the table or was retained in saveBuf by some partition", len(c03Fragments(false)), len(c03Fragments(true)), byteL, maxStrs, len(c03BoundaryStrings(maxStrs[0])), padN, len(c03PaddedStrings(padN)), max3, len(cfgs)))
 		c.Assume("after the first error of a block the decoder is not used again (callers must tear the connection down); the success/failure of a block is compared, not which error value is returned")
-		c.Assume("part (D) uses shortest-form integers only: literals whose string length prefixes are redundantly padded (possible only for lengths >= 127), combined with a max string length, are not enumerated")
+		c.Assume("non-shortest (padded) integers are enumerated for string lengths n and n+1 and the name index at max string length 127 only, in the listed widths; padded integers in size updates and indexed fields are those of the fragment alphabet")
 		c.Assume("purely differential: a defect that misbehaves identically for every partition is invisible here by construction")
 
 		var runs atomic.Int64
@@ -405,6 +500,9 @@ func TestVerif_C03(t *testing.T) {
 					if !base.OK() {
 						trig = "single-write-fails"
 					}
+					if x.Padded {
+						trig += "/padded-integers"
+					}
 					switch {
 					case sp.BadSig != "":
 						w.Failf("C03/split-write/"+sp.BadSig, "%s; chunks %s (%s) %v", sp.Bad, c02Chunks(chunks), x.Desc, cfg)
@@ -436,6 +534,16 @@ func TestVerif_C03(t *testing.T) {
 			}
 		}
 
+		// (D) literals whose name/value lengths straddle the max string length
+		// (the smallest part: run first so that a deadline never cuts it)
+		vx.Enumerate(c, "max-string-length-boundary", vx.Opts{}, func(yield func(c03Case) bool) {
+			for _, n := range maxStrs {
+				if !c03BoundaryBlocks(n, false, yield) {
+					return
+				}
+			}
+			c03BoundaryBlocks(padN, true, yield)
+		}, check)
 		// (A) fragment sequences
 		genFragSeq := func(seq []c02Frag, yield func(c03Case) bool) bool {
 			{
@@ -474,14 +582,6 @@ func TestVerif_C03(t *testing.T) {
 			vx.Strings(c03Fragments(false)[:12], 4, 4, func(seq []c02Frag) bool { return genFragSeq(seq, yield) })
 		}, check)
 
-		// (D) literals whose name/value lengths straddle the max string length
-		vx.Enumerate(c, "max-string-length-boundary", vx.Opts{}, func(yield func(c03Case) bool) {
-			for _, n := range maxStrs {
-				if !c03BoundaryBlocks(n, yield) {
-					return
-				}
-			}
-		}, check)
 		// (C) encoder output, intact and damaged
 		vx.Enumerate(c, "encoder-output", vx.Opts{}, func(yield func(c03Case) bool) {
 			for _, cs := range c03EncoderBlocks() {
